@@ -13,6 +13,14 @@ const nsPerSec = 1000000000
 
 // time.Time is {wall uint64, ext int64, loc *Location}; we keep unix
 // nanoseconds in ext (wall = 0, loc = nil). The zero Time is ext == 0.
+// goTimer is the engine side of a time.Timer.
+type goTimer struct {
+	ch    *ChanV
+	t     *timer
+	fired bool
+	f     Value // AfterFunc: the function to run
+}
+
 func (e *Exec) mkTime(ns *Term) Value {
 	return StructV{e.intConst(64, 0), ns, (*Value)(nil)}
 }
@@ -282,6 +290,67 @@ func registerTime() {
 			}
 		})
 		return ch
+	}
+
+	// time.Timer: the struct's C field is a 1-buffered channel fed by a virtual timer; the engine
+	// keeps the timer state next to the struct cell (a Timer is only ever handled by pointer)
+	newGoTimer := func(e *Exec, fn *ssa.Function, d *Term) (*Value, *goTimer) {
+		st := fn.Signature.Results().At(0).Type().(*types.Pointer).Elem()
+		var cell Value = e.zero(st)
+		ch := e.newChan(1)
+		cell.(StructV)[0] = ch
+		gt := &goTimer{ch: ch}
+		p := &cell
+		if e.goTimers == nil {
+			e.goTimers = map[*Value]*goTimer{}
+		}
+		e.goTimers[p] = gt
+		return p, gt
+	}
+	arm := func(e *Exec, gt *goTimer, d *Term) {
+		gt.fired = false
+		gt.t = e.addTimer(d, fmt.Sprintf("time.Timer #%d", gt.ch.id), func() {
+			gt.fired = true
+			if gt.f != nil {
+				e.newThread(gt.f, nil, "time.AfterFunc")
+				return
+			}
+			if len(gt.ch.buf) < gt.ch.cap {
+				gt.ch.buf = append(gt.ch.buf, e.mkTime(e.now))
+			}
+		})
+	}
+	I["time.NewTimer"] = func(e *Exec, th *Thread, fn *ssa.Function, a []Value) Value {
+		p, gt := newGoTimer(e, fn, a[0].(*Term))
+		arm(e, gt, a[0].(*Term))
+		return p
+	}
+	I["time.AfterFunc"] = func(e *Exec, th *Thread, fn *ssa.Function, a []Value) Value {
+		p, gt := newGoTimer(e, fn, a[0].(*Term))
+		gt.f = a[1]
+		arm(e, gt, a[0].(*Term))
+		return p
+	}
+	timerOf := func(e *Exec, v Value) *goTimer {
+		p, _ := v.(*Value)
+		gt := e.goTimers[p]
+		if p == nil || gt == nil {
+			panic(goPanic{msg: "invalid memory address or nil pointer dereference (time.Timer not created by NewTimer or AfterFunc)"})
+		}
+		return gt
+	}
+	I["(*time.Timer).Stop"] = func(e *Exec, th *Thread, fn *ssa.Function, a []Value) Value {
+		gt := timerOf(e, a[0])
+		active := !gt.fired && !gt.t.cancelled
+		gt.t.cancelled = true
+		return e.ctx.Bool(active)
+	}
+	I["(*time.Timer).Reset"] = func(e *Exec, th *Thread, fn *ssa.Function, a []Value) Value {
+		gt := timerOf(e, a[0])
+		active := !gt.fired && !gt.t.cancelled
+		gt.t.cancelled = true
+		arm(e, gt, a[1].(*Term))
+		return e.ctx.Bool(active)
 	}
 
 	// ---- context ----
